@@ -267,6 +267,16 @@ def record_pure(tid: str, tt: list[list[int]], seed: int, kinds: list[str], per_
                         e["pnvars"], e["pn"] = pn_project(pn1, names)
                         sd.node_data(c_id)["percolated_petri_net"] = None     # the next request recomputes
                     emit(e, call)
+                    # ... and the percolated network the diagram reports for the node
+                    e2 = _default(n)
+                    e2["k"] = "percnet"
+                    e2["sp"] = vec(sd.node_data(c_id)["space"], names)
+                    e2["remove"] = True
+
+                    def call2(e2, c_id=c_id):
+                        g = sd.node_percolated_network(c_id, compute=True)
+                        e2["gvars"], e2["gtt"] = network_tt_over(g, names)
+                    emit(e2, call2)
 
     if "percnet" in kinds:
         for _ in range(per_kind):
